@@ -319,8 +319,9 @@ class Interp:
 
     def st_Assign(self, n, s):
         outs = []
-        if isinstance(n.value, ast.Call):
-            inl = self.inline(n.value, s)
+        call = self._as_call(n.value, s)
+        if call is not None:
+            inl = self.inline(call, s)
             if inl is not None:
                 for s2, v in inl:
                     for t in n.targets:
@@ -449,8 +450,9 @@ class Interp:
             return {'return': [(s, None)]}
         outs = []
         results = None
-        if isinstance(n.value, ast.Call):
-            results = self.inline(n.value, s)
+        call = self._as_call(n.value, s)
+        if call is not None:
+            results = self.inline(call, s)
         for s2, v in (results if results is not None else self.expr(n.value, s)):
             self.emit(s2, ('return', v if (is_concrete(v) or _known(v)) else _text(n.value), n.lineno))
             outs.append((s2, v))
@@ -737,6 +739,24 @@ class Interp:
             body_out = final
         return body_out
 
+    def _as_call(self, node, s):
+        """`node` if it is a Call; a synthetic obj.__getitem__(idx) call for a subscript of a heap object whose class
+        defines __getitem__; else None."""
+        if isinstance(node, ast.Call):
+            return node
+        if self.heap and isinstance(node, ast.Subscript) and isinstance(node.ctx, ast.Load) and not isinstance(node.slice, ast.Slice) \
+           and self.model is not None and _text(node) not in s.env:
+            base = None
+            for _s, b in self.expr(node.value, s, fork=False):
+                base = b
+            if isinstance(base, Obj) and isinstance(base.cls, M.ClassInfo) and '__items' not in base.attrs \
+               and self.model.find_method(base.cls, '__getitem__') is not None:
+                call = ast.Call(func=ast.Attribute(value=node.value, attr='__getitem__', ctx=ast.Load()), args=[node.slice], keywords=[])
+                ast.copy_location(call, node)
+                ast.copy_location(call.func, node)
+                return call
+        return None
+
     # -- helper inlining ---------------------------------------------------------
     def _callee(self, call, s):
         """Resolve a call to a function definition that can be interpreted in place:
@@ -771,6 +791,16 @@ class Interp:
             if any(d in ('staticmethod',) for d in m.decorators):
                 return m.node, False, m
             return m.node, True, m
+        if isinstance(f, ast.Attribute) and self.model is not None and self.heap:
+            # method of a heap object of a repository class:  self.parent.keys()
+            recv = None
+            for _s, b in self.expr(f.value, s, fork=False):
+                recv = b
+            if isinstance(recv, Obj) and isinstance(recv.cls, M.ClassInfo) and f.attr not in recv.attrs:
+                m = self.model.find_method(recv.cls, f.attr)
+                if m is not None and not any(d in ('staticmethod', 'classmethod', 'property') for d in m.decorators):
+                    self._receiver = recv
+                    return m.node, True, m
         return None
 
     def inline(self, call, s):
@@ -783,10 +813,12 @@ class Interp:
         if res is None:
             return None
         node, bound, info = res
+        receiver, self._receiver = getattr(self, '_receiver', None), None
         flt = getattr(self.h, 'should_inline', None)
         if flt is not None and not flt(fname, node, info):
             return None
-        if node in self._inline_stack or any(isinstance(x, (ast.Yield, ast.YieldFrom)) for x in M.walk_no_nested(node)):
+        if (node in self._inline_stack and receiver is None) or self._inline_stack.count(node) >= 4 \
+           or any(isinstance(x, (ast.Yield, ast.YieldFrom)) for x in M.walk_no_nested(node)):
             return None
         if any(isinstance(k.arg, type(None)) for k in call.keywords) or any(isinstance(a, ast.Starred) for a in call.args):
             return None
@@ -827,7 +859,11 @@ class Interp:
         cs.env.update(local)
         ckey = '__caller@%d' % len(self._inline_stack)
         cs.env[ckey] = s.env          # travels (and is forked) with the callee state: aliasing with caller locals is kept
-        if bound and 'self' in s.env and 'self' not in local:
+        if receiver is not None:
+            cs.env['self'] = receiver
+            for k in [k for k in cs.env if k.startswith('self.') or k.startswith('self[')]:
+                del cs.env[k]
+        elif bound and 'self' in s.env and 'self' not in local:
             cs.env['self'] = s.env['self']
         self.emit(cs, ('call', self.canon(fname, s), tuple(_evarg(a, x) for a, x in zip(args, call.args)), call.lineno))
         self.emit(cs, ('enter', self.canon(fname, s), call.lineno))
@@ -842,16 +878,18 @@ class Interp:
             self.scope = saved_scope
             self._locals_cache = saved_cache
         results = []
-        for kind in ('fall', 'return'):
+        for kind in ('fall', 'return') + (('raise',) if self.precise_exc else ()):
             for st, v in outs.get(kind, []):
                 ns = State(dict(st.env.get(ckey, s.env)), st.trace, st.assumed)
                 st.env.pop(ckey, None)
                 ns.flags = st.flags
                 # write back attribute facts and bookkeeping keys
                 for k in [k for k in ns.env if '.' in k or '[' in k or k.startswith('__')]:
-                    if k not in st.env:
+                    if k not in st.env and not (receiver is not None and (k.startswith('self.') or k.startswith('self['))):
                         del ns.env[k]
                 for k, val in st.env.items():
+                    if receiver is not None and (k.startswith('self.') or k.startswith('self[')):
+                        continue
                     if '.' in k or '[' in k or k.startswith('__'):
                         ns.env[k] = val
                 if info is None:
@@ -862,6 +900,10 @@ class Interp:
                 if ns.trace and ns.trace[-1][0] == 'return':
                     ns.trace = ns.trace[:-1]
                 self.emit(ns, ('leave', self.canon(fname, s), call.lineno))
+                if kind == 'raise':
+                    ns.env['__exc'] = v or 'Exception'      # propagates in the caller (block() turns it into a raise)
+                    results.append((ns, TOP))
+                    continue
                 results.append((ns, v if kind == 'return' else None))
         for st, v in outs.get('raise', []):
             self._pending_raises = getattr(self, '_pending_raises', []) + [st]
@@ -1122,6 +1164,9 @@ class Interp:
                     return items[idx]
             except TypeError:
                 pass
+            if self.precise_exc and base.attrs.get('__complete'):
+                s.env['__exc'] = 'KeyError'
+                return TOP
             self._maythrow += 1
             return TOP
         if isinstance(base, (list, tuple, str, dict)) and is_concrete(idx) and not isinstance(base, M._StringLetters):
@@ -1459,6 +1504,14 @@ class Interp:
             if meth == 'clear':
                 recv.clear()
                 return None
+            if meth == 'update' and len(args) == 1 and isinstance(args[0], dict) and not kwargs:
+                recv.update(args[0])
+                return None
+            if meth == 'setdefault' and args and is_concrete(args[0]):
+                try:
+                    return recv.setdefault(args[0], args[1] if len(args) > 1 else None)
+                except TypeError:
+                    return TOP
             return TOP
         return TOP
 
